@@ -39,7 +39,7 @@ structure WriterRule where
 
 /-- the code in /repo today: flip when the patches are applied -/
 def currentWriterEmitsCodonStart : Bool := true    -- F-C12a repaired in /repo (bc2bc66)
-def currentMinusPartsDescending : Bool := false
+def currentMinusPartsDescending : Bool := true
 def currentWriterRule : WriterRule := ⟨currentWriterEmitsCodonStart, currentMinusPartsDescending⟩
 def WriterRule.repaired : WriterRule := ⟨true, true⟩
 
@@ -176,50 +176,71 @@ def frameDigit : CDSFrame → Str
 
 /-! ### the writer -/
 
-/-- `add_cds_feature` -/
-def addCdsFeature (cfg : Cfg) (seq : Option Str) (t : Tx) (txQuals : QDict) (strand : Strand) : R Rec := do
-  -- (proposed patch for F-C12a) `feature.qualifiers["codon_start"] = [start_frame.value + 1]`, before the translation
-  let q0 := if cfg.rule.emitsCodonStart then
-      dictSet txQuals "codon_start".toList [frameDigit ((Spec.Gb.startFrame t).getD .ZERO)] else txQuals
-  let q2 ← (if cfg.updateTranslations then
-      match proteinOf cfg.flavor seq t with
-      | .ok p => pure (dictSet q0 "translation".toList [p])
-      | .error .ValueError => pure q0
-      | .error e => throw e
-    else pure q0)
-  pure { type := "CDS".toList, strand := strand, parts := toBiopythonParts cfg.rule t.strand t.cds, quals := q2 }
+/-- qualifiers of the CDS record: the transcript-level qualifiers (+ `/codon_start`, proposed patch for F-C12a:
+    `feature.qualifiers["codon_start"] = [start_frame.value + 1]`, before the translation) -/
+def cdsBaseQuals (cfg : Cfg) (t : Tx) (txQuals : QDict) : QDict :=
+  if cfg.rule.emitsCodonStart then
+    dictSet txQuals "codon_start".toList [frameDigit ((Spec.Gb.startFrame t).getD .ZERO)] else txQuals
 
-/-- feature key of the transcript-level record -/
-def transcriptFeatType (t : Tx) : R Str := do
-  let nm ← (match truthy t.txType with
-    | none => pure none
-    | some n => match biotypeName n with
-      | some c => pure (some c)
-      | none => throw .ValueError)
+def cdsRecord (cfg : Cfg) (t : Tx) (strand : Strand) (q : QDict) : Rec :=
+  { type := "CDS".toList, strand := strand, parts := toBiopythonParts cfg.rule t.strand t.cds, quals := q }
+
+/-- `add_cds_feature` (`except ValueError: pass` around the translation) -/
+def addCdsFeature (cfg : Cfg) (seq : Option Str) (t : Tx) (txQuals : QDict) (strand : Strand) : R Rec :=
+  let q0 := cdsBaseQuals cfg t txQuals
+  if cfg.updateTranslations then
+    match proteinOf cfg.flavor seq t with
+    | .ok p => .ok (cdsRecord cfg t strand (dictSet q0 "translation".toList [p]))
+    | .error .ValueError => .ok (cdsRecord cfg t strand q0)
+    | .error e => .error e
+  else .ok (cdsRecord cfg t strand q0)
+
+/-- `Biotype[name].name` of an optional biotype attribute (`none` = attribute is None) -/
+def canonType (ty : Option Str) : R (Option Str) :=
+  match truthy ty with
+  | none => .ok none
+  | some n => match biotypeName n with
+    | some c => .ok (some c)
+    | none => .error .ValueError
+
+/-- feature key of the transcript-level record, given the canonical biotype name -/
+def featTypeOf (nm : Option Str) (coding : Bool) : Str :=
   match nm with
-  | some c => if transcriptFeatureValues.contains c then pure c
-              else if t.cds.isEmpty then pure "misc_RNA".toList else pure "mRNA".toList
-  | none => if t.cds.isEmpty then pure "misc_RNA".toList else pure "mRNA".toList
+  | some c => if transcriptFeatureValues.contains c then c else if coding then "mRNA".toList else "misc_RNA".toList
+  | none => if coding then "mRNA".toList else "misc_RNA".toList
+
+/-- qualifiers every record of a transcript starts from: export_qualifiers + `/gene` + `/locus_tag` -/
+def txBaseQuals (q0 : QDict) (symbol locusTag : Option Str) : QDict :=
+  let q1 := match symbol with | some s => dictSet q0 "gene".toList [s] | none => q0
+  match locusTag with | some s => dictSet q1 "locus_tag".toList [s] | none => q1
+
+def txRecord (cfg : Cfg) (t : Tx) (ft : Str) (strand : Strand) (q : QDict) : Rec :=
+  { type := ft, strand := strand, parts := toBiopythonParts cfg.rule t.strand t.exons,
+    quals := dictDel (dictDel q "protein_id".toList) "translation".toList }
 
 /-- one iteration of `for transcript in transcripts` in `transcripts_to_feature` -/
 def transcriptToFeatures (cfg : Cfg) (seq : Option Str) (strand : Strand) (symbol locusTag : Option Str) (t : Tx) :
-    R (List Rec) := do
-  let q0 ← txExportQuals t
-  let q1 := match symbol with | some s => dictSet q0 "gene".toList [s] | none => q0
-  let q2 := match locusTag with | some s => dictSet q1 "locus_tag".toList [s] | none => q1
-  if t.strand ≠ strand ∧ ¬ cfg.forceStrand then pure []
-  else do
-    let ft ← transcriptFeatType t
-    if ft = "mRNA".toList ∧ cfg.flavor = .prokaryotic then do
-      let c ← addCdsFeature cfg seq t q2 strand
-      pure [c]
-    else do
-      let q3 := dictDel (dictDel q2 "protein_id".toList) "translation".toList
-      let r : Rec := { type := ft, strand := strand, parts := toBiopythonParts cfg.rule t.strand t.exons, quals := q3 }
-      if cfg.flavor = .eukaryotic ∧ ft = "mRNA".toList then do
-        let c ← addCdsFeature cfg seq t q2 strand
-        pure [r, c]
-      else pure [r]
+    R (List Rec) :=
+  match txExportQuals t with
+  | .error e => .error e
+  | .ok q0 =>
+    let q2 := txBaseQuals q0 symbol locusTag
+    if t.strand ≠ strand ∧ ¬ cfg.forceStrand then .ok []            -- strand mismatch, not forced: skipped
+    else
+      match canonType t.txType with
+      | .error e => .error e
+      | .ok nm =>
+        let ft := featTypeOf nm (!t.cds.isEmpty)
+        if ft = "mRNA".toList ∧ cfg.flavor = .prokaryotic then
+          -- a coding gene in prokaryotic mode: straight to the CDS
+          match addCdsFeature cfg seq t q2 strand with
+          | .error e => .error e
+          | .ok c => .ok [c]
+        else if cfg.flavor = .eukaryotic ∧ ft = "mRNA".toList then
+          match addCdsFeature cfg seq t q2 strand with
+          | .error e => .error e
+          | .ok c => .ok [txRecord cfg t ft strand q2, c]
+        else .ok [txRecord cfg t ft strand q2]
 
 /-- one iteration of `for feature in features` in `feature_intervals_to_features` -/
 def featureToFeatures (cfg : Cfg) (strand : Strand) (name locusTag : Option Str) (x : FeatI) : List Rec :=
@@ -234,40 +255,42 @@ def mapMR {α β} (f : α → R β) : List α → R (List β)
   | [] => pure []
   | a :: as => do let b ← f a; let bs ← mapMR f as; pure (b :: bs)
 
-/-- `gene_to_feature` on a `GeneInterval` -/
-def geneToFeatures (cfg : Cfg) (seq : Option Str) (g : Gene) : R (List Rec) := do
-  let strand ← match majorityStrand (g.txs.map (·.strand)) with
-    | some s => pure s
-    | none => throw .ValueError            -- `max([])`; a GeneInterval always has transcripts
-  let bounds ← match geneBounds g with
-    | some b => pure b
-    | none => throw .ValueError
-  let q0 ← geneExportQuals g
-  let symbol := (truthy g.geneSymbol).orElse fun _ => truthy g.geneId
-  let q1 := match symbol with | some s => dictSet q0 "gene".toList [s] | none => q0
-  let locusTag := (truthy g.locusTag).orElse fun _ => symbol
-  let q2 := match locusTag with | some s => dictSet q1 "locus_tag".toList [s] | none => q1
-  let geneRec : Rec := { type := "gene".toList, strand := strand, parts := [bounds], quals := q2 }
-  let rest ← mapMR (transcriptToFeatures cfg seq strand symbol locusTag) g.txs
-  pure (geneRec :: rest.flatten)
+/-- `symbol` of a gene: gene_symbol, else gene_id -/
+def geneSymbolOf (g : Gene) : Option Str := (truthy g.geneSymbol).orElse fun _ => truthy g.geneId
+/-- `locus_tag` written for a gene: locus_tag, else the symbol -/
+def geneTagOf (g : Gene) : Option Str := (truthy g.locusTag).orElse fun _ => geneSymbolOf g
 
-/-- `gene_to_feature` on a `FeatureIntervalCollection` -/
-def fcToFeatures (cfg : Cfg) (f : FColl) : R (List Rec) := do
-  let strand ← match majorityStrand (f.feats.map (·.strand)) with
-    | some s => pure s
-    | none => throw .ValueError
-  let bounds ← match fcBounds f with
-    | some b => pure b
-    | none => throw .ValueError
+def geneRecord (strand : Strand) (bounds : Blk) (q0 : QDict) (g : Gene) : Rec :=
+  { type := "gene".toList, strand := strand, parts := [bounds], quals := txBaseQuals q0 (geneSymbolOf g) (geneTagOf g) }
+
+/-- `gene_to_feature` on a `GeneInterval` (`max([])` cannot happen: a GeneInterval always has transcripts) -/
+def geneToFeatures (cfg : Cfg) (seq : Option Str) (g : Gene) : R (List Rec) :=
+  match majorityStrand (g.txs.map (·.strand)), geneBounds g with
+  | some strand, some bounds =>
+    match geneExportQuals g with
+    | .error e => .error e
+    | .ok q0 =>
+      match mapMR (transcriptToFeatures cfg seq strand (geneSymbolOf g) (geneTagOf g)) g.txs with
+      | .error e => .error e
+      | .ok rest => .ok (geneRecord strand bounds q0 g :: rest.flatten)
+  | _, _ => .error .ValueError
+
+def fcSymbolOf (f : FColl) : Option Str := (truthy f.name).orElse fun _ => truthy f.id
+def fcTagOf (f : FColl) : Option Str := (truthy f.locusTag).orElse fun _ => fcSymbolOf f
+
+def fcRecord (strand : Strand) (bounds : Blk) (f : FColl) : Rec :=
   let q0 := fcExportQuals f
-  let symbol := (truthy f.name).orElse fun _ => truthy f.id
-  let q1 := match symbol with | some s => dictSet q0 "misc_feature".toList [s] | none => q0
-  let q2 := match truthy f.locusTag with
-    | some s => dictSet q1 "locus_tag".toList [s]
-    | none => match symbol with | some s => dictSet q1 "locus_tag".toList [s] | none => q1
-  let fcRec : Rec := { type := "misc_feature".toList, strand := strand, parts := [bounds], quals := q2 }
-  -- NB the children get `gene_or_feature.locus_tag` (no fall-back to the symbol)
-  pure (fcRec :: f.feats.flatMap (featureToFeatures cfg strand symbol f.locusTag))
+  let q1 := match fcSymbolOf f with | some s => dictSet q0 "misc_feature".toList [s] | none => q0
+  let q2 := match fcTagOf f with | some s => dictSet q1 "locus_tag".toList [s] | none => q1
+  { type := "misc_feature".toList, strand := strand, parts := [bounds], quals := q2 }
+
+/-- `gene_to_feature` on a `FeatureIntervalCollection`
+    (NB the children get `gene_or_feature.locus_tag`, without the fall-back to the symbol) -/
+def fcToFeatures (cfg : Cfg) (f : FColl) : R (List Rec) :=
+  match majorityStrand (f.feats.map (·.strand)), fcBounds f with
+  | some strand, some bounds =>
+    .ok (fcRecord strand bounds f :: f.feats.flatMap (featureToFeatures cfg strand (fcSymbolOf f) f.locusTag))
+  | _, _ => .error .ValueError
 
 def itemToFeatures (cfg : Cfg) (seq : Option Str) : Item → R (List Rec)
   | .gene g => geneToFeatures cfg seq g
